@@ -77,6 +77,21 @@ def programs(tier):
             yield mk(f"all {cmp_} {k}", [DECL_BB, D("r", B(cmp_, ("all", V("bb")), I(k)), "Signal")], ["r"])
     yield mk("gate member-typed", [DECL_BB, ("decl", "Signal", "sx", ("proj", V("s"), "signal-X")),
                                    D("r", ("cond", B(">", V("sx"), I(0)), V("bb")))], ["r"])
+    # gating a DERIVED bundle on a member of its own source bundle, with and without further consumers
+    sel = B(">", ("sel", V("bb"), "signal-X"), I(2))
+    for op2 in ("*", "+"):
+        base = [DECL_BB, D("p", B(op2, V("bb"), I(2))), D("r", ("cond", sel, V("p")))]
+        yield mk(f"gate-derived {op2}", base, ["r"])
+        yield mk(f"gate-derived {op2} +lamp-any-src", base + [("place", "l1", "small-lamp", I(10), I(20), None),
+                                                              ("prop", "l1", "enable", B(">", ("any", V("bb")), I(3)))], ["r"])
+        yield mk(f"gate-derived {op2} +lamp-any-derived", base + [("place", "l1", "small-lamp", I(10), I(20), None),
+                                                                  ("prop", "l1", "enable", B(">", ("any", V("p")), I(3)))], ["r"])
+        yield mk(f"gate-derived {op2} +second-result", base + [D("q", B("-", V("bb"), I(1)))], ["r", "q"])
+        yield mk(f"gate-derived {op2} +sel-result", base + [D("q", B("+", ("sel", V("p"), "signal-Y"), I(1)), "Signal")], ["r", "q"])
+    yield mk("gate-src-on-member", [DECL_BB, D("r", ("cond", sel, V("bb")))], ["r"])
+    # constant-expression operands and members
+    yield mk("each-const-expr", [DECL_BB, D("r", B("*", V("bb"), ("paren", B("+", I(1), I(1)))))], ["r"])
+    yield mk("lit-const-expr-member", [D("r", ("bundle", [("lit", "signal-X", B("+", I(1), I(2))), V("y")]))], ["r"])
     # selection
     for t in ("signal-X", "iron-plate"):
         yield mk(f"sel {t}", [DECL_BB, D("r", ("sel", V("bb"), t), "Signal")], ["r"])
